@@ -554,9 +554,13 @@ impl Sealed for Database {}
 
 impl ReadableDatabase for Database {
     fn begin_read(&self) -> Result<ReadTransaction, TransactionError> {
+        #[cfg(redb_verif)]
+        crate::verif::pause("X.begin_read");
         let guard = TransactionGuard::allocate_read(self.transaction_tracker.clone(), &self.mem)?;
         #[cfg(feature = "logging")]
         debug!("Beginning read transaction id={:?}", guard.id());
+        #[cfg(redb_verif)]
+        crate::verif::pause("X.begin_read.registered");
         ReadTransaction::new(self.get_memory(), guard)
     }
 
@@ -1306,12 +1310,16 @@ fn begin_write_with_allocation_policy(
     mem: &Arc<TransactionalMemory>,
     allocation_policy: AllocationPolicy,
 ) -> Result<WriteTransaction, TransactionError> {
+    #[cfg(redb_verif)]
+    crate::verif::pause("X.begin_write");
     // Fail early if there has been an I/O error -- nothing can be committed in that case
     mem.check_io_errors()?;
     let guard = TransactionGuard::new_write(
         transaction_tracker.start_write_transaction(),
         transaction_tracker.clone(),
     );
+    #[cfg(redb_verif)]
+    crate::verif::pause("X.begin_write.slot");
     // Re-checked after acquiring the write slot: the writer this call blocked on can fail its
     // commit, latching an I/O error and discarding the allocator state. The I/O check comes
     // first so a backend failure is not misreported as corruption. Returning drops the guard,
@@ -1378,6 +1386,8 @@ fn close_database(transaction_tracker: &Arc<TransactionTracker>, mem: &Arc<Trans
 
 impl Drop for Database {
     fn drop(&mut self) {
+        #[cfg(redb_verif)]
+        crate::verif::pause("X.db_drop");
         if self
             .transaction_tracker
             .defer_close_if_write_transaction_live(&self.mem)
@@ -1391,6 +1401,8 @@ impl Drop for Database {
             return;
         }
 
+        #[cfg(redb_verif)]
+        crate::verif::pause("X.db_drop.close");
         close_database(&self.transaction_tracker, &self.mem);
     }
 }
@@ -2065,5 +2077,13 @@ impl Database {
     /// Bytes of a page as the engine currently sees it (write buffer, cache, then file)
     pub fn verif_read_page(&self, page: crate::verif::VPage) -> Result<Vec<u8>> {
         crate::verif::read_page(&self.mem, page)
+    }
+}
+
+// Verification hook H4 (add-only): inject a spurious wakeup of begin_write() waiters
+#[cfg(redb_verif)]
+impl Database {
+    pub fn verif_spurious_wake(&self) {
+        self.transaction_tracker.verif_spurious_wake();
     }
 }
